@@ -18,6 +18,8 @@
      POSIX paths both are injective images of the component list (that restriction is the correspondence
      domain).  The trie is kept flat: [nodes] lists (path, node) in creation order, so the children of a node
      in dict order are the entries one component longer, in list order.
+   * The code modelled is /repo after the two fix commits described in design/notes/C21.md (put decides on the
+     stored objects and walks up to the root; invalidate_location walks the whole subtree).
    * [DataLocation] objects live in [heap]; a [ref] is an index.  Objects are shared between nodes (a relation
      puts the same object under two paths) and only [data_type] is ever mutated (to INVALID).
    * [locations] is a nested insertion-ordered dict: deployment -> location name -> list of objects.
@@ -245,43 +247,20 @@ Fixpoint set_invalid (r : nat) (h : list dloc) : list dloc :=
   | d :: h', S r' => d :: set_invalid r' h'
   end.
 Definition mark1 (s : st) (r : ref) : st := mkst (set_invalid r (heap s)) (nodes s).
-Inductive istat := IOk | IKeyError | IFuel.
-Fixpoint inval (fuel : nat) (s : st) (key : lockey) (p : path) : st * istat :=
-  match fuel with
-  | 0 => (s, IFuel)
-  | S f =>
-      match find_node p (nodes s) with
-      | None => (s, IKeyError)
-      | Some n =>
-          let s1 := fold_left mark1 (locs_at n key) s in
-          fold_left
-            (fun (acc : st * istat) (c : path) =>
-               match acc with
-               | (s', IOk) =>
-                   match find_node c (nodes s') with
-                   | None => acc
-                   | Some cn =>
-                       fold_left
-                         (fun (acc2 : st * istat) (r : ref) =>
-                            match acc2 with
-                            | (s'', IOk) =>
-                                match hget s'' r with
-                                | Some d => if dtype_eqb (dl_type d) INVALID then acc2
-                                            else inval f s'' (dl_loc d) (dl_path d)
-                                | None => acc2
-                                end
-                            | _ => acc2
-                            end)
-                         (locs_at cn key) (s', IOk)
-                   end
-               | _ => acc
-               end)
-            (children p (nodes s1)) (s1, IOk)
-      end
+Inductive istat := IOk | IKeyError.
+(* q is p or lies beneath p *)
+Definition beneath (p q : path) : bool := match strip_prefix p q with Some _ => true | None => false end.
+Definition mark_node (key : lockey) (s : st) (n : node) : st := fold_left mark1 (locs_at n key) s.
+(* invalidate_location(location, path) after the fix "walk the whole subtree": KeyError when the path has no
+   node; otherwise every object of that location held by the node of the path or by any node beneath it becomes
+   INVALID.  The code walks the trie depth-first; the model walks the flat node list — marking is idempotent
+   and commutes, so the resulting state is the same. *)
+Definition invalidate (s : st) (key : lockey) (p : path) : st * istat :=
+  match find_node p (nodes s) with
+  | None => (s, IKeyError)
+  | Some _ =>
+      (fold_left (fun s' e => if beneath p (fst e) then mark_node key s' (snd e) else s') (nodes s) s, IOk)
   end.
-(* Python's recursion is unbounded; every nested call is made for a not yet INVALID object, so the number of
-   objects plus one bounds the depth whenever every object sits under its own path *)
-Definition invalidate (s : st) (key : lockey) (p : path) : st * istat := inval (S (length (heap s))) s key p.
 
 (* ---- get_source_location ---- *)
 Definition is_local (tab : list locinfo) (key : lockey) : bool :=
